@@ -43,6 +43,16 @@ type Case struct {
 	State string     `json:"state,omitempty"`    // dry-run start state: fresh | partial | full
 	Scen  string     `json:"scenario,omitempty"` // schema apply scenario
 	Extra string     `json:"extra,omitempty"`    // extra flag (e.g. baseline)
+	// FailKind: "" = a statement naming a missing table; "or_rollback" = a constraint violation with the
+	// SQLite conflict clause OR ROLLBACK (the engine itself rolls the open transaction back).
+	FailKind string `json:"fail_kind,omitempty"`
+}
+
+func failingOf(c Case) string {
+	if c.FailKind == "or_rollback" {
+		return "INSERT OR ROLLBACK INTO journal (sid) VALUES (NULL)"
+	}
+	return failing
 }
 
 func sid(f, i int) int { return (f+1)*10 + i + 1 }
@@ -77,7 +87,7 @@ func filesLvl(c Case, lvl int) map[string]string {
 			case f == startOf(c.Shape) && i == 0:
 				b.WriteString("CREATE TABLE journal (sid integer NOT NULL);\n")
 			case f == c.FailF && i == c.FailK && !repaired:
-				b.WriteString(failing + ";\n")
+				b.WriteString(failingOf(c) + ";\n")
 			case f == c.FailF && c.Fail2 > 0 && i == c.Fail2 && lvl < 2:
 				b.WriteString(failing + ";\n")
 			default:
@@ -644,6 +654,9 @@ func cases(tier string) []Case {
 						}
 						for _, n := range counts {
 							cs = append(cs, Case{Kind: "migrate_fail", Mode: mode, Shape: s2, FailF: f, FailK: k, Count: n})
+							if n == 0 && d == (dir{}) {
+								cs = append(cs, Case{Kind: "migrate_fail", Mode: mode, Shape: s2, FailF: f, FailK: k, FailKind: "or_rollback"})
+							}
 						}
 					}
 				}
@@ -697,6 +710,15 @@ func cases(tier string) []Case {
 }
 
 func classify(c Case, problems []string) string {
+	if c.Kind == "migrate_fail" && c.FailKind == "or_rollback" && c.FailF >= 0 && modeOf(c.Mode, c.Shape[c.FailF]) != "none" {
+		for _, p := range problems {
+			if !strings.HasPrefix(p, "after the failing run:") && !strings.HasPrefix(p, "after repairing the file the command still fails") &&
+				!strings.HasPrefix(p, "final state after failure+repair differs") {
+				return ""
+			}
+		}
+		return "statement-that-makes-sqlite-roll-back-leaves-a-partial-revision-of-undone-statements"
+	}
 	if c.Kind == "migrate_dryrun" {
 		onlyRevTable := true
 		for _, p := range problems {
@@ -724,7 +746,7 @@ func classify(c Case, problems []string) string {
 
 func Run(r *report.Run) {
 	defer clih.Cleanup()
-	r.Rule = "real CLI on real SQLite files: (1) `migrate apply`: directory shapes (1-3 files x 1-3 statements, and directories with a checkpoint file preceded by older files) x a really failing statement at every position x tx-mode {file, all, none} x per-file txmode directive on the failing / preceding file x apply count {all, 1, 2} (plus every pair of failing positions in one file, repaired one after the other): the state after the failure (journal rows written by the statements themselves + revision rows, read by our own connection) must equal what the mode promises, and after repairing the file and re-running the full dump must equal that of a run that never failed; (2) `migrate apply --dry-run` from 5 start states (fresh, partially applied, one file applied, fully applied, non-empty without history) x modes x count x {--baseline, --allow-dirty}: dump and directory byte-identical; (3) `schema apply` on populated tables whose plan fails midway on the data, default / file / none tx-mode, and --dry-run; non-trivial = every case; distinct = the case tuple"
+	r.Rule = "real CLI on real SQLite files: (1) `migrate apply`: directory shapes (1-3 files x 1-3 statements, and directories with a checkpoint file preceded by older files) x a really failing statement (naming a missing table; for the plain directories also a constraint violation with the SQLite conflict clause OR ROLLBACK) at every position x tx-mode {file, all, none} x per-file txmode directive on the failing / preceding file x apply count {all, 1, 2} (plus every pair of failing positions in one file, repaired one after the other): the state after the failure (journal rows written by the statements themselves + revision rows, read by our own connection) must equal what the mode promises, and after repairing the file and re-running the full dump must equal that of a run that never failed; (2) `migrate apply --dry-run` from 5 start states (fresh, partially applied, one file applied, fully applied, non-empty without history) x modes x count x {--baseline, --allow-dirty}: dump and directory byte-identical; (3) `schema apply` on populated tables whose plan fails midway on the data, default / file / none tx-mode, and --dry-run; non-trivial = every case; distinct = the case tuple"
 	r.Assumptions = []string{
 		"after a repair the hash / partial_hashes columns of the revision row legitimately differ from a never-failed run and are masked; timestamps are masked",
 		"`--tx-mode all` with per-file txmode directives is rejected by the CLI and not enumerated",
